@@ -125,8 +125,8 @@ ROUND4 = {
 ROUND4["C02"] = (ROUND4["C02"][0] + " Command-less scripts slice: 9 texts without any command (empty, blanks, newlines, comments, line continuations) through eval, `.`, -c, in functions, subshells and and-or lists after a command that returned 5: status 0.", None)
 ROUND4["C03"] = (" Shell-maintained variables slice: $((x)) vs $(($x)) for LINENO, OPTIND, PPID and an ordinary variable in 4 expression shapes at 4 positions (known finding: LINENO).", None)
 ROUND4["C04"] = (" Quoted `-` `]` `!` `^` `[` inside bracket expressions are literal members in model and workload (bracket bodies to length 3 / 4 over 29 tokens); tilde-result slice: 9 HOME values that look like patterns x 15 strings, `case $s in ~)`, `~/t`, and the four trims must treat the tilde result literally.", None)
-ROUND4["C13"] = (ROUND4["C13"][0] + " Harmless-signals slice: CONT / URG / WINCH / CHLD / null signal sent to children that may have finished already, 4 shapes x FIFO + 11/299 random schedules: wait still reports the child's own status, everything terminates and is reaped.", None)
-ROUND4["C19"] = (ROUND4["C19"][0] + " Also: kill after wait (ESRCH), directories and unexecutable files as command names (with and without a slash, through PATH), CDPATH/HOME, files created through `..`, trailing-slash / empty / doubled-slash paths, descriptors and offsets shared with subshells and substitutions.", None)
+ROUND4["C13"] = (ROUND4["C13"][0] + " Harmless-signals slice: CONT / URG / WINCH / CHLD / null signal sent to children that may have finished already, 4 shapes x FIFO + 11/299 random schedules: wait still reports the child's own status, everything terminates and is reaped. Real-kernel stress (checks/c13r.rs): 8 / 16 shards x 60 / 1200 rounds of asynchronous lists, pipelines (with and without pipefail), substitutions and waits in every order with known statuses; nothing hangs, nothing is left unreaped.", "vsh-virtual + vsh-real")
+ROUND4["C19"] = (ROUND4["C19"][0] + " Also: kill after wait (ESRCH), directories and unexecutable files as command names (with and without a slash, through PATH), CDPATH/HOME, files created through `..`, trailing-slash / empty / doubled-slash paths, descriptors and offsets shared with subshells and substitutions; every fourth script is run once more on the real kernel with the shell-internal descriptors (10+) listed before and after.", None)
 for k, (t, eng) in ROUND4.items():
     CLAIMED[k]["text"] += t
     if eng:
